@@ -615,7 +615,7 @@ def run(ctx):
     if status.get("error"):
         bad = [l for l in lays.values() if l["status"] == "error"][0]
         raise vlib.Inconclusive("layout construction failed: %s" % bad.get("note"))
-    if status.get("ok", 0) < max(3, len(jobs) // 3):
+    if status.get("ok", 0) + status.get("storemismatch", 0) < max(3, len(jobs) // 3):
         raise vlib.Inconclusive("too few usable layouts: %s" % status)
     # 5. validate
     res, tstats = validate(ctx, lays, traces)
@@ -625,6 +625,9 @@ def run(ctx):
     stats = {"layout_status": status, "layouts_distinct_generated": len(layouts), "traces": len(traces),
              "events": summ["events"], "go_wall_s": round(wall, 1), "panics": summ["panics"]}
     judge(ctx, jobs, lays, traces, res, stats)
+    if status.get("storemismatch") and not ctx.violations and not ctx.known_hits:
+        bad = [l for l in lays.values() if l["status"] == "storemismatch"][0]
+        raise vlib.Inconclusive("DB.Read differs from the store model (%s) but no iterator clause failed: C01/C04's subject" % bad.get("note", "")[:300])
     drift = {}
     for tid, ks in res.items():
         for k, (v, d) in ks.items():
@@ -639,7 +642,7 @@ def run(ctx):
     jd = stats["judged"]
     need = ["seekfirst", "seeklast", "seekle", "seekge", "next", "prev", "nextauto", "prevauto"]
     lack = [c for c in need if jd.get(c, 0) == 0]
-    multi = sum(1 for l in lays.values() if l["status"] == "ok" and any(len(l["pointers"][ch]) > 1 for ch in ("D", "V", "I")))
+    multi = sum(1 for l in lays.values() if l["status"] in ("ok", "storemismatch") and any(len(l["pointers"][ch]) > 1 for ch in ("D", "V", "I")))
     stats["layouts_multi_domain"] = multi
     stats["modes"] = {m: sum(1 for t in traces if t["mode"] == m) for m in ("unary", "stream")}
     if lack or multi == 0 or jd.get("steps_with_data", 0) == 0 or not stats["modes"]["stream"]:
